@@ -235,14 +235,35 @@ class Ctx:
     def quick(self):
         return self.tier == "quick"
 
-    def block(self, libname, key):
+    def block_quick(self, sources):
+        """Depth of a function-level building block.  The block's tie is about specific source files: when one of them differs from
+        the validated tree (tools/srcpin.py) the complete space is run even in the quick tier (a targeted escalation, 1-4 min); when
+        none does, a quick run that was escalated to the thorough document spaces keeps the block at its seeded sample — its
+        functions did not change.  An explicit `--tier thorough` always runs the complete space."""
+        import fnmatch
+        if os.environ.get("VERIF_BLOCK_TIER") == "quick":        # tools/mkbaseline.py: only the document-level failures are collected
+            return True
+        if "_changed" not in self.__dict__:
+            try:
+                import srcpin
+                self._changed = srcpin.changed() or []
+            except Exception:
+                self._changed = []
+        if any(fnmatch.fnmatch(f, pat) for f in self._changed for pat in sources):
+            self.__dict__.setdefault("blocks_escalated", []).append(sorted(sources)[0])
+            return False
+        return self.quick() or bool(getattr(self, "escalated_from_quick", None))
+
+    def block(self, libname, key, sources=()):
         """Run one function-level building block (a tie library tools/<libname>.py with run(ctx, quick) -> coverage dict).
         Its coverage goes to evidence coverage.building_blocks[key]; correspondence failures are appended to ctx.broken by the
         library; returns (disagreeing inputs, failing inputs of the real code) for the caller's failing-input search."""
         import importlib
         t = time.time()
         lib = importlib.import_module(libname)
-        cov = dict(lib.run(self, self.quick()))
+        q = self.block_quick(sources)
+        cov = dict(lib.run(self, q))
+        cov["tier_run"] = "sample" if q else "complete space"
         dis, fi = cov.pop("disagreements", []), cov.pop("failing_inputs", [])
         cov["disagreements"], cov["real_code_failing_inputs"], cov["wall_s"] = len(dis), len(fi), round(time.time() - t, 1)
         self.__dict__.setdefault("blocks", {})[key] = cov
@@ -367,6 +388,8 @@ class Ctx:
             cov["leanchecker"] = self.lean["leanchecker"]
         if getattr(self, "blocks", None):
             cov["building_blocks"] = self.blocks
+        if getattr(self, "blocks_escalated", None):
+            cov["building_blocks_run_on_complete_space_because_their_source_changed"] = self.blocks_escalated
         if getattr(self, "escalated_from_quick", None):
             cov["escalated_from_quick"] = {"changed_anchor_files": self.escalated_from_quick,
                                            "note": "quick command, seeded sample found nothing; anchored source differs from tools/srcpins.json"}
